@@ -85,8 +85,143 @@ def run_part(ck):
                 ck.case((lay.key(), lay.old, new, k), 0 < k < total, "%s:%s" % (lay.kind, cls),
                         sample={"layout": {a: b for a, b in lay.descr().items() if a not in ("mem", "file_head")},
                                 "new_len": n, "cut": k, "of": total, "sees": cls} if len(ck.samples) < 3 and 0 < k < total else None)
+    failed_writes(ck, lays)
+    stale_object_cuts(ck, lays, var, jobs)
     T.compare(ck, model, jobs, "t34-cut-model-vs-nfcpy")
     emu_cuts(ck)
+
+
+def pick(rng, total, limit):
+    ks = list(range(total))
+    return ks if total <= limit else sorted(set([0, 1, 2, total - 1] + rng.sample(ks, limit - 4)))
+
+
+def failed_writes(ck, lays):
+    """a write that FAILS at state-changing command k while the tag stays powered: the tag answers that command
+    with an error status (Type 3: FF70h, Type 4: 6581h) or - Type 3 - stays silent for as long as the reader
+    retries; the command is not executed.  The writer's error path runs; afterwards a fresh reader must see
+    old / empty / not readable / new, the model (runW / runU stop at the first failing command) says that no
+    further state-changing command is sent, and a retry on the same NDEF object must complete the write."""
+    rng = ck.rng
+    dis = n_tie = 0
+    for lay in lays:
+        cap = lay.cap
+        if cap < 1 or len(lay.old) < 1:
+            continue
+        for n in sorted({rng.choice([1, 17, 40]), rng.randrange(cap + 1), cap} & set(range(1, cap + 1))):
+            new = T.rbytes(rng, n, 1)
+            full = T.SetRun(lay.sim(), new)
+            if full.res != "ok":
+                continue
+            total = len(full.sim.writes)
+            for k in pick(rng, total, 40 if ck.thorough else 8):
+                for mode in (("status", "lost") if lay.kind == "t3" else ("status",)):
+                    sim = lay.sim()
+                    sim.inject_failure(k, mode)
+                    replay = {"layout": lay.descr(), "data": new.hex(), "fails_at_command": k, "commands": total,
+                              "failure": {"status": "error status FF70h / 6581h", "lost": "no response (3 attempts)"}[mode]}
+                    try:
+                        nd = sim.activate().ndef
+                        nd.octets = new
+                        res = "ok"
+                    except Exception as e:  # noqa
+                        res = "exc " + T.xname(e)
+                    if not res.startswith("exc TagCommandError"):
+                        ck.fail(lay.kind + "-failed-command-not-reported", "command %d of %d failed (%s), the write ended %s"
+                                % (k, total, mode, res), replay)
+                        continue
+                    n_tie += 1
+                    if len(sim.writes) != k or sim.writes != full.sim.writes[:k]:
+                        dis += 1
+                        ck.fail("tie:t34-failed-write-commands", "model: a write failing at command %d sends nothing after it; "
+                                "the implementation executed %d state-changing commands" % (k, len(sim.writes)), replay)
+                    mem = bytes(sim.mem) if lay.kind == "t3" else bytes(sim.file)
+                    line, _ = T.see(lay.sim(mem=mem) if lay.kind == "t3" else lay.sim(file=mem))
+                    cls = T.classify(line, lay.old, new)
+                    if cls in ("corrupt", "raises"):
+                        key = "%s-failed-write-%s" % (lay.kind, cls)
+                        if lay.kind == "t4" and lay.mlc < lay.nl and cls == "corrupt":
+                            key = "t4-torn-nlen-mlc-below-nlen-size"
+                        ck.fail(key, "old %d octets, new %d octets, command %d of %d failed "
+                                "(%s, tag stays powered): fresh reader sees %s" % (len(lay.old), n, k, total, mode, line[:90]), replay)
+                    ck.case((lay.key(), lay.old, new, k, mode), True, "%s:failed-%s:%s" % (lay.kind, mode, cls))
+                    # the application retries on the same object
+                    try:
+                        nd.octets = new
+                        res2 = "ok"
+                    except Exception as e:  # noqa
+                        res2 = "exc " + T.xname(e)
+                    mem = bytes(sim.mem) if lay.kind == "t3" else bytes(sim.file)
+                    line2, _ = T.see(lay.sim(mem=mem) if lay.kind == "t3" else lay.sim(file=mem))
+                    if res2 != "ok" or T.classify(line2, b"\x00impossible", new) != "new":
+                        ck.fail(lay.kind + "-retry-after-failed-write", "retry on the same object after the failure at command %d: "
+                                "%s, fresh reader sees %s" % (k, res2, line2[:90]), replay)
+    ck.tie("t34-failed-write-commands", n_tie, dis, False)
+
+
+def stale_object_cuts(ck, lays, var, jobs):
+    """the NDEF object was created while the tag held an EMPTY message; meanwhile the tag received the message
+    `old` (another writer); the application now writes through the stale object and power is cut after command k.
+    The commands must not depend on what the object remembers: they are compared with the model of a write on
+    the current contents, and every cut is classified against the message really on the tag."""
+    from sims.t34_sims import t3_attr
+    rng = ck.rng
+    for lay in lays:
+        cap = lay.cap
+        if len(lay.old) < 1:
+            continue
+        if lay.kind == "t3":
+            empty = t3_attr(lay.ver, lay.nbr, lay.nbw, lay.nmaxb, 0, lay.rw, 0) + lay.mem[16:]
+            cur = lay.mem
+        else:
+            empty = bytes(lay.nl) + lay.file[lay.nl:]
+            cur = lay.file
+
+        def run(cut, new):
+            sim = lay.sim(mem=empty, cut=cut) if lay.kind == "t3" else lay.sim(file=empty, cut=cut)
+            try:
+                nd = sim.activate().ndef
+            except Exception:  # noqa
+                return None, None
+            if nd is None or nd.length != 0:
+                return None, None
+            if lay.kind == "t3":
+                sim.mem[:] = cur
+            else:
+                sim.file[:] = cur
+            try:
+                nd.octets = new
+                res = "ok"
+            except Exception as e:  # noqa
+                res = "exc " + T.xname(e)
+            return sim, res
+
+        for n in sorted({rng.choice([1, 17, 60]), rng.randrange(cap + 1)} & set(range(1, cap + 1))):
+            new = T.rbytes(rng, n, 1)
+            sim, res = run(None, new)
+            if sim is None or res != "ok":
+                continue
+            total = len(sim.writes)
+            replay0 = {"layout": lay.descr(), "data": new.hex(), "stale_object": "created on an empty tag"}
+            if lay.kind == "t3":
+                line = "%s cmds=%s mem=%s" % (res, T.t3_cmds(sim), hx(sim.mem))
+                jobs.append((T.t3_req("set", cur, new), line, replay0))
+            else:
+                line = "%s cmds=%s mem=%s" % (res, T.t4_cmds(sim), hx(sim.file))
+                jobs.append((T.t4_req("set", var, lay, cur, new), line, replay0))
+            for k in ([0] + pick(rng, total, 30 if ck.thorough else 8)):
+                simk, _ = run(k, new)
+                mem = bytes(simk.mem) if lay.kind == "t3" else bytes(simk.file)
+                seen, _ = T.see(lay.sim(mem=mem) if lay.kind == "t3" else lay.sim(file=mem))
+                cls = T.classify(seen, lay.old, new)
+                if cls in ("corrupt", "raises"):
+                    key = "%s-stale-object-cut-%s" % (lay.kind, cls)
+                    if lay.kind == "t4" and lay.mlc < lay.nl:
+                        key = "t4-torn-nlen-mlc-below-nlen-size"
+                    ck.fail(key, "object created on the empty tag, tag meanwhile holds %d octets, write of %d octets cut after "
+                            "command %d of %d: fresh reader sees %s" % (len(lay.old), n, k, total, seen[:90]),
+                            dict(replay0, cut_after=k, commands=total))
+                ck.case((lay.key(), "stale", lay.old, new, k), 0 < k < total, "%s:stale:%s" % (lay.kind, cls))
 
 
 def emu_cuts(ck):
